@@ -119,8 +119,11 @@ int zzJacobi(const word a[], size_t n, const word b[], size_t m, void* stack)
 	wwCopy(v, b, m);
 	m = wwWordSize(v, m);
 	// u <- a \mod b
-	zzMod(u, a, n, v, m, stack);
-	n = wwWordSize(u, m);
+	// [n < m => a < B^n <= B^{m - 1} <= b; zzMod() записал бы m > n слов в u]
+	if (n < m)
+		wwCopy(u, a, n), n = wwWordSize(u, n);
+	else
+		zzMod(u, a, n, v, m, stack), n = wwWordSize(u, m);
 	// основной цикл
 	while (wwCmpW(v, m, 1) > 0)
 	{
